@@ -31,6 +31,7 @@ var netErr = errors.New("connection dropped")
 
 // wireMode: the next scenario reaches the mock coordinator through real *Conn objects (byte-level path)
 var wireMode bool
+var seenBody = map[string]bool{}
 
 // ---------------------------------------------------------------- scenario state
 
@@ -54,6 +55,7 @@ type scenario struct {
 	fns     []*userFn
 	nextRes chan nextResult
 	nextOut bool
+	assignOnly string // when set, SyncGroup assigns partitions of this topic only
 	wire    bool
 	member  int
 	cgID    string
@@ -130,7 +132,11 @@ func (s *scenario) partsOf(topics []string) []kafka.Partition {
 func (s *scenario) okReply(c kafka.VerifCoordCall) kafka.VerifCoordReply {
 	switch c.Method {
 	case "findCoordinator":
-		return kafka.VerifCoordReply{Host: "coord", Port: 9092}
+		// where the coordinator lives varies (host name, IPv4, IPv6 literal, unusual ports): the next connect must dial it
+		host := []string{"coord", "coord", "10.1.2.3", "k-7.internal", "fe80::1", "::1"}[s.rng.Intn(6)]
+		port := []int32{9092, 9092, 19093, 443, 65535, 1}[s.rng.Intn(6)]
+		kafka.VerifGroupEmit("H.Coord", host, port)
+		return kafka.VerifCoordReply{Host: host, Port: port}
 	case "joinGroup":
 		m := c.MemberID
 		if m == "" || s.rng.Intn(10) == 0 {
@@ -150,8 +156,11 @@ func (s *scenario) okReply(c kafka.VerifCoordCall) kafka.VerifCoordReply {
 	case "syncGroup":
 		a := map[string][]int32{}
 		for _, t := range s.topics {
+			if s.assignOnly != "" && t != s.assignOnly {
+				continue
+			}
 			for i := 0; i < s.parts[t]; i++ {
-				if s.rng.Intn(3) > 0 {
+				if s.assignOnly != "" || s.rng.Intn(3) > 0 {
 					a[t] = append(a[t], int32(i))
 				}
 			}
@@ -434,6 +443,7 @@ func boolTok(s string) string {
 
 func canon(evs []kafka.VerifEvent, topics []string, wire bool) (string, map[string]int) {
 	pendRet := map[string][]string{}
+	nGens := 0
 	var wireRets [][]string
 	genIdx := map[string]int{}
 	connGen := map[string]int{} // connection id -> generation index
@@ -532,7 +542,8 @@ func canon(evs []kafka.VerifEvent, topics []string, wire bool) (string, map[stri
 				}
 			}
 		case "G.New":
-			genIdx[a[1]] = len(genIdx)
+			genIdx[a[1]] = nGens // a new identity at every creation event (the recorder's ids are addresses and can be reused)
+			nGens++
 			connGen[lastJoinConn] = genIdx[a[1]]
 			add(fmt.Sprintf("gNew:%s:%s:%s", gi(a[1]), a[2], gm.Mem(a[3])))
 		case "H.Start":
@@ -605,7 +616,43 @@ func (s *scenario) emit(name string) {
 		tr = "nextCall"
 	}
 	fmt.Fprintf(out, "trace %d %s\t%s\n", s.nWatch, tr, st)
+	for _, l := range s.mock.TakeBodies() {
+		if strings.HasPrefix(l, "wirereq ") && !seenBody[l] {
+			seenBody[l] = true
+			fmt.Fprintln(out, l)
+		}
+	}
+	for _, l := range coordAddrLines(evs, s.wire) {
+		if !seenBody[l] {
+			seenBody[l] = true
+			fmt.Fprintln(out, l)
+		}
+	}
 	_ = name
+}
+
+// coordAddrLines: after a FindCoordinator that the library concluded successful (answer host/port journalled as H.Coord
+// by the scenario), the next connect is the dial of the coordinator: `coordaddr <host> <port>\t<address dialled>`.
+func coordAddrLines(evs []kafka.VerifEvent, wire bool) []string {
+	var lines []string
+	host, port, pending := "", "", false
+	for _, e := range evs {
+		a := e.Args
+		switch {
+		case e.Kind == "H.Coord":
+			host, port = a[0], a[1]
+		case e.Kind == "M.Ret" && a[1] == "findCoordinator":
+			pending = !wire && a[2] == "-"
+		case e.Kind == "M.Wire" && a[1] == "findCoordinator":
+			pending = a[2] == "-"
+		case e.Kind == "M.Call" && a[1] == "connect":
+			if pending && host != "" {
+				lines = append(lines, fmt.Sprintf("coordaddr %s %s\t%s", host, port, a[4]))
+			}
+			pending = false
+		}
+	}
+	return lines
 }
 
 // ---------------------------------------------------------------- scripted helpers
@@ -704,8 +751,11 @@ func scenarioD9(rng *rand.Rand) {
 
 // scenarioCauses: each end cause in turn on a fresh generation, with two application functions observing the ctx.
 func scenarioCauses(rng *rand.Rand, cause int) {
-	watch := cause == 2 || cause == 3 || cause == 6
+	watch := cause == 2 || cause == 3 || cause == 6 || cause == 7
 	s := newScenario(rng, []string{"t", "u"}, watch, 0)
+	if cause == 7 {
+		s.assignOnly = "t"
+	}
 	s.start(2*time.Millisecond, 2*time.Millisecond, 5*time.Millisecond)
 	s.callNext()
 	okJoin := s.joinAsFollower()
@@ -732,6 +782,15 @@ func scenarioCauses(rng *rand.Rand, cause int) {
 			close(s.fns[0].release)
 		case 5: // Close
 			s.callClose()
+		case 7: // the partition count of a configured topic that is NOT in this member's assignment changes
+			s.parts["u"]++
+			if p := s.mock.Await(func(p *gm.Pending) bool {
+				return p.Call.Method == "readPartitions" && len(p.Call.Topics) == 1 && p.Call.Topics[0] == "u"
+			}, 300*time.Millisecond); p != nil {
+				s.mock.Answer(p, s.okReply(p.Call))
+			} else {
+				s.fail("no-watcher-for-unassigned-topic")
+			}
 		case 6: // a watched topic is deleted: the poll answers UnknownTopicOrPartition (count N -> 0)
 			s.ok("readPartitions")
 			s.answer("readPartitions", withErr(kerr(3)))
@@ -840,13 +899,14 @@ func main() {
 	if only == "" || only == "scripted" {
 		scenarioD8(rng)
 		scenarioD9(rng)
-		for c := 0; c < 7; c++ {
+		for c := 0; c < 8; c++ {
 			scenarioCauses(rng, c)
 		}
 		scenarioBackoff(rng)
 		scenarioHeartbeatRate(rng)
 		scenarioLateNext(rng)
 		scenarioOptions()
+		scenarioDefaults()
 	}
 	if only == "d8" {
 		scenarioD8(rng)
